@@ -23,12 +23,24 @@ const c09Decls = `type Status int
 
 func (s Status) String() string { return "st" }
 
+// SA / DA: a nested by-value pair of DIFFERENT struct types, copied member by member
+type SA struct {
+	Zip  int
+	City string
+}
+
+type DA struct {
+	Zip  int
+	City string
+}
+
 type S struct {
 	CASE int
 	g    int
 	St   Status
 	T    int64
 	N    int
+	Ad   SA
 }
 
 func (s *S) Gval() int { return s.g }
@@ -39,6 +51,7 @@ type D struct {
 	St   string
 	T    int
 	N    int
+	Ad   DA
 }
 
 func I2I(i int) int           { return i }
@@ -198,6 +211,12 @@ var c09Alphabet = []struct {
 	{[]string{":getter:off", ":typecast:off", ":stringer:off", ":case"}, "(*S) *D"},
 	{[]string{":style return", ":match name"}, "(*S) *D"},
 	{[]string{":match none", ":map N N", ":conv I2I T Case"}, "(*S) *D"},
+	// per-method lists aimed BELOW the nested pair
+	{[]string{":skip Ad.Zip"}, "(*S) *D"},
+	{[]string{":map N Ad.Zip"}, "(*S) *D"},
+	{[]string{":conv I2I N Ad.Zip"}, "(*S) *D"},
+	{[]string{":literal Ad.City \"x\""}, "(*S) *D"},
+	{[]string{":conv I2IE N Ad.Zip"}, "(*S) (*D, error)"},
 }
 
 func init() {
@@ -205,7 +224,7 @@ func init() {
 		th := e.Rep.Thorough()
 		base := filepath.Join(e.WS.Root, "scope")
 		_ = os.MkdirAll(base, 0o755)
-		e.Rep.Rule("(b) non-interference: method alphabet of 24 notation sets (toggles, :skip, :map, :conv, :literal, $n, hooks, :recv, :reverse, error result, value operands) - every ordered pair in one interface with both name orders, " +
+		e.Rep.Rule("(b) non-interference: method alphabet of 29 notation sets (toggles, :skip, :map, :conv, :literal, $n, hooks, :recv, :reverse, error result, value operands, and :skip/:map/:conv/:literal aimed below a nested struct pair that every method copies member by member) - every ordered pair in one interface with both name orders, " +
 			"every ordered pair split over two interfaces where either interface carries all six interface-level notations, every ordered triple in thorough; " +
 			"(a) inheritance: interface-level x method-level settings of the six inheritable notations in {unset, non-default, explicit default}: complete product (3^6)^2 = 531441 settings in thorough (729 files x 729 methods), " +
 			"every pair of notations jointly with the others unset in quick; oracle O-diff: the text of each generated function equals the text generated for the same method alone with its effective settings written at method level; " +
